@@ -51,6 +51,27 @@ Theorem C09_inert :
 Proof. exact eval_expr_of. Qed.
 Print Assumptions C09_inert.
 
+(** At the engine level, for every well-formed value (strings included), width,
+    ribbon, indent, depth, max_seq_len: the streams emitted for a value and
+    for the same value under a comment glue to the SAME expression tokens -
+    the comment adds comment-annotated text and changes the layout, nothing
+    else (Proofs/StrBridge.v, EndToEnd.v). *)
+From PP Require Import Sem Normalize Layout Render StrBridge EndToEnd.
+Theorem C09_engine_comment_inert :
+  forall (printable sp wd lb : N -> bool) (fuel ff : nat) (v : pyval) (t : str) (indent width rw : Z)
+         (depth : option Z) (maxlen : Z) (sort : bool) (out1 out2 : list sdoc),
+    wf_val v -> wf_val (VCommented v t) ->
+    sdocs_model printable sp wd lb fuel ff v indent width rw depth maxlen sort = Some out1 ->
+    sdocs_model printable sp wd lb fuel ff (VCommented v t) indent width rw depth maxlen sort = Some out2 ->
+    exists ts, Glue printable (rtoks (strip out1) NNormal) ts /\ Glue printable (rtoks (strip out2) NNormal) ts.
+Proof.
+  intros. exists (etoks (expr_of (mkE depth maxlen sort) v false)).
+  destruct (engine_output_tokens_all _ _ _ _ _ _ _ _ _ _ _ _ _ _ H H1) as (r1 & <- & G1).
+  destruct (engine_output_tokens_all _ _ _ _ _ _ _ _ _ _ _ _ _ _ H0 H2) as (r2 & <- & G2).
+  split; [exact G1|exact G2].
+Qed.
+Print Assumptions C09_engine_comment_inert.
+
 Example C09_example :
   norm 1000 false (VTuple [VCommented (VInt 1) [99]%N]) = VTuple [VInt 1] /\
   eval (fun _ => None) (expr_of (mkE None 1000 false) (VTrailing (VTuple [VCommented (VInt 1) [99; 10; 10; 35]%N]) [116]%N) false)
